@@ -195,14 +195,17 @@ func (st *c19State) newPPQ(n int) {
 	st.ppq = ds.NewPartitionedPriorityQueue(qp, func(a, b c19QItem) int { return a.prio - b.prio }, func(x c19QItem) int { return x.part })
 }
 
-// zipShape checks the binary-search-tree order and the zip-tree rank order on the real tree.
+// zipShape checks the binary-search-tree order and the zip-tree rank order on the real tree and prints its exact
+// shape with ranks (the harness drives the ranks through ziptree.VerifRankSource, so the shape is deterministic).
 func c19ZipShape(t *ziptree.ZipTree) string {
 	d := t.VerifDump()
 	var keys [][]byte
 	ok := true
+	var sb strings.Builder
 	var walk func(i int)
 	walk = func(i int) {
 		if i < 0 {
+			sb.WriteString(".")
 			return
 		}
 		n := d[i]
@@ -212,12 +215,17 @@ func c19ZipShape(t *ziptree.ZipTree) string {
 		if n.Right >= 0 && !(d[n.Right].Rank <= n.Rank) {
 			ok = false
 		}
+		fmt.Fprintf(&sb, "(%s:%d,", lib.Hex(n.Key), n.Rank)
 		walk(n.Left)
 		keys = append(keys, n.Key)
+		sb.WriteString(",")
 		walk(n.Right)
+		sb.WriteString(")")
 	}
 	if len(d) > 0 {
 		walk(0)
+	} else {
+		sb.WriteString(".")
 	}
 	for i := 1; i < len(keys); i++ {
 		if bytes.Compare(keys[i-1], keys[i]) >= 0 {
@@ -225,9 +233,9 @@ func c19ZipShape(t *ziptree.ZipTree) string {
 		}
 	}
 	if !ok || len(keys) != len(d) {
-		return "bad"
+		return "bad " + sb.String()
 	}
-	return fmt.Sprintf("ok %d", len(d))
+	return fmt.Sprintf("ok %d %s", len(d), sb.String())
 }
 
 func c19Seqs[T any](runs [][]T) []iter.Seq[T] {
@@ -244,11 +252,50 @@ func (st *c19State) op(f []string) string {
 	n := func(i int) int { v, _ := strconv.Atoi(f[i]); return v }
 	switch f[0] {
 	case "z.put":
+		// the rank insert would draw is supplied by the case (also to the model), so rank ties run on the real code
+		rk, _ := strconv.ParseUint(f[3], 10, 32)
+		ziptree.VerifRankSource = func() uint32 { return uint32(rk) }
+		defer func() { ziptree.VerifRankSource = nil }()
 		old := st.zip.Put(ziptree.NewKVEntry(lib.UnHex(f[1]), lib.UnHex(f[2])))
 		if old == nil {
 			return "none"
 		}
 		return "val " + lib.Hex(old.Value)
+	case "z.reput":
+		// in-place update through a retained reference: Get, change Value, Put the same *Node back
+		nd, ok := st.zip.Get(lib.UnHex(f[1]))
+		if !ok {
+			return "none"
+		}
+		nd.Value = lib.UnHex(f[2])
+		old := st.zip.Put(nd)
+		if old == nil {
+			return "reput-inserted"
+		}
+		if old != nd {
+			return "reput-returned-other-node " + lib.Hex(old.Value)
+		}
+		return "val " + lib.Hex(old.Value)
+	case "z.ascput":
+		// replace every yielded key from inside the scan (fresh node, or the yielded node itself)
+		var parts []string
+		val := lib.UnHex(f[2])
+		for nd := range st.zip.AscendPrefix(lib.UnHex(f[1])) {
+			parts = append(parts, lib.Hex(nd.Key)+"="+lib.Hex(nd.Value))
+			if len(parts) > 100000 {
+				return "runaway"
+			}
+			if f[3] == "same" {
+				nd.Value = val
+				st.zip.Put(nd)
+			} else {
+				st.zip.Put(ziptree.NewKVEntry(nd.Key, val))
+			}
+		}
+		if len(parts) == 0 {
+			return "list"
+		}
+		return "list " + strings.Join(parts, ",")
 	case "z.get":
 		nd, ok := st.zip.Get(lib.UnHex(f[1]))
 		if !ok {
@@ -325,6 +372,38 @@ func (st *c19State) op(f []string) string {
 	case "q.new":
 		st.newPPQ(n(1))
 		return "ok"
+	case "q.newp":
+		// constructor over partitions that already hold items (as after a restore)
+		np := n(1)
+		st.parts = make([]*c19Part, np)
+		qp := make([]ds.QueuePartition[c19QItem], np)
+		for i := range st.parts {
+			st.parts[i] = &c19Part{index: -7}
+			qp[i] = st.parts[i]
+		}
+		if f[2] != "_" {
+			for _, e := range strings.Split(f[2], ",") {
+				x := strings.Split(e, ":")
+				a, _ := strconv.Atoi(x[0])
+				b, _ := strconv.Atoi(x[1])
+				c, _ := strconv.Atoi(x[2])
+				if b < np {
+					st.parts[b].Push(c19QItem{a, b, c})
+				}
+			}
+		}
+		st.ppq = ds.NewPartitionedPriorityQueue(qp, func(a, b c19QItem) int { return a.prio - b.prio }, func(x c19QItem) int { return x.part })
+		return "ok"
+	case "q.dump":
+		ps := make([]string, len(st.parts))
+		for i, p := range st.parts {
+			ids := make([]string, len(p.items))
+			for j, it := range p.items {
+				ids[j] = strconv.Itoa(it.id)
+			}
+			ps[i] = strings.Join(ids, ",")
+		}
+		return "parts " + strings.Join(ps, "|")
 	case "q.push":
 		st.ppq.Push(c19QItem{n(1), n(2), n(3)})
 		return "ok"
@@ -731,8 +810,12 @@ func c19Gen(r *lib.Rng, tier string, i int) lib.Case {
 		rankMax := lib.Pick(r, []int{1, 2, 4, 1 << 16, 1 << 32})
 		for len(ops) < nops {
 			switch x := r.Intn(100); {
-			case x < 50:
+			case x < 44:
 				add("z.put %s %s %d", lib.Hex(c19Key(r)), lib.Hex(r.Bytes(r.Range(0, 2))), r.U64()%uint64(rankMax))
+			case x < 49:
+				add("z.reput %s %s", lib.Hex(c19Key(r)), lib.Hex(r.Bytes(r.Range(0, 2))))
+			case x < 52:
+				add("z.ascput %s %s %s", lib.Hex(c19Key(r)), lib.Hex(r.Bytes(r.Range(0, 2))), lib.Pick(r, []string{"fresh", "same"}))
 			case x < 72:
 				add("z.get %s", lib.Hex(c19Key(r)))
 			case x < 94:
@@ -772,9 +855,23 @@ func c19Gen(r *lib.Rng, tier string, i int) lib.Case {
 	case "ppq":
 		np := r.Range(1, 6)
 		prioMax := lib.Pick(r, []int{1, 3, 6, 100})
-		add("q.new %d", np)
 		var live []string
 		id := 0
+		if r.Chance(1, 3) {
+			// construct over partitions that already hold items
+			var init []string
+			for j := r.Range(1, 8); j > 0; j-- {
+				id++
+				pr, pa := r.Intn(prioMax), r.Intn(np)
+				init = append(init, fmt.Sprintf("%d:%d:%d", pr, pa, id))
+				live = append(live, fmt.Sprintf("%d %d %d", pr, pa, id))
+			}
+			add("q.newp %d %s", np, strings.Join(init, ","))
+			add("q.idx")
+			add("q.peek")
+		} else {
+			add("q.new %d", np)
+		}
 		for len(ops) < nops {
 			switch x := r.Intn(100); {
 			case x < 40:
@@ -794,13 +891,16 @@ func c19Gen(r *lib.Rng, tier string, i int) lib.Case {
 				} else {
 					add("q.del %d %d %d", r.Intn(prioMax), r.Intn(np), 1000+r.Intn(5))
 				}
-			case x < 90:
+			case x < 88:
 				add("q.empty")
+			case x < 92:
+				add("q.dump")
 			default:
 				add("q.idx")
 			}
 		}
 		add("q.idx")
+		add("q.dump")
 		for j := 0; j < id+1 && j < 40; j++ {
 			add("q.pop")
 		}
@@ -811,6 +911,17 @@ func c19Gen(r *lib.Rng, tier string, i int) lib.Case {
 			switch x := r.Intn(100); {
 			case x < 40:
 				add("c.push %s", lib.Hex(c19Key(r)))
+			case x < 43:
+				// drain from the back down to zero, then consult Peek before and after a refill (seed C19-6: a cached
+				// minimum that PopLast forgot to refresh)
+				for j := r.Range(1, 6); j > 0; j-- {
+					add("c.poplast")
+				}
+				add("c.peek")
+				add("c.empty")
+				add("c.push %s", lib.Hex(c19Key(r)))
+				add("c.peek")
+				add("c.peeklast")
 			case x < 50:
 				add("c.pop")
 			case x < 58:
@@ -966,6 +1077,11 @@ func c19Fixed(tier string) []lib.Case {
 	cs = append(cs, lib.Case{Header: "M C19", Tags: []string{"regress-D33"}, Ops: []string{
 		"h.push 0 2", "h.pop", "h.idx 2", "h.dump", "h.fix 2 5", "h.push 3 3", "h.fix 2 9", "h.dump", "h.pop", "h.idx 3", "h.pop",
 	}})
+	// Peek after the cache was drained from the back to zero, and after a refill with larger items (seed C19-6)
+	cs = append(cs, lib.Case{Header: "M C19", Tags: []string{"cache-drain-back"}, Ops: []string{
+		"c.new 10", "c.push 6d", "c.poplast", "c.peek", "c.peeklast", "c.empty", "c.pop", "c.push 71", "c.peek", "c.push 62", "c.peek",
+		"c.poplast", "c.peek", "c.poplast", "c.peek", "c.bytes", "c.sum", "c.push 7a", "c.push 79", "c.peek", "c.del 79", "c.peek", "c.poplast", "c.peek",
+	}})
 	// SearchUnique exhaustively: every length up to 9 (12 thorough), every target between and around the elements
 	maxN := 9
 	if tier == "thorough" {
@@ -994,11 +1110,76 @@ func c19Fixed(tier string) []lib.Case {
 		}
 	}
 	cs = append(cs, lib.Case{Header: "M C19", Tags: []string{"search-exhaustive"}, Ops: ops})
+	// heap and partitioned queue: every operation sequence of a fixed length over a small alphabet with tied priorities
+	// (a search aid next to the all-histories theorems heap_run_refines / ppq_peek_is_global_min)
+	enumLen := 4
+	if tier == "thorough" {
+		enumLen = 6
+	}
+	total := 1
+	for i := 0; i < enumLen; i++ {
+		total *= 6
+	}
+	for code := 0; code < total; code++ {
+		var hops, qops []string
+		qops = append(qops, "q.new 2")
+		id, c := 0, code
+		first := ""
+		for i := 0; i < enumLen; i++ {
+			a := c % 6
+			c /= 6
+			switch a {
+			case 0, 1, 2:
+				id++
+				hops = append(hops, fmt.Sprintf("h.push %d %d", a, id))
+			case 3:
+				hops = append(hops, "h.pop")
+			case 4:
+				hops = append(hops, "h.fix 1 2")
+			case 5:
+				hops = append(hops, fmt.Sprintf("h.fix %d 0", max(id, 1)))
+			}
+			switch a {
+			case 0, 1, 2, 4:
+				it := fmt.Sprintf("%d %d %d", a%2, (a/2)%2, i+1)
+				if first == "" {
+					first = it
+				}
+				qops = append(qops, "q.push "+it)
+			case 3:
+				qops = append(qops, "q.pop")
+			case 5:
+				if first == "" {
+					qops = append(qops, "q.del 0 0 99")
+				} else {
+					qops = append(qops, "q.del "+first)
+				}
+			}
+		}
+		hops = append(hops, "h.dump", "h.idx 1")
+		qops = append(qops, "q.idx", "q.dump", "q.peek")
+		for i := 0; i <= enumLen; i++ {
+			hops = append(hops, "h.pop")
+			qops = append(qops, "q.pop")
+		}
+		hops = append(hops, "h.idx 1", "h.size")
+		qops = append(qops, "q.empty", "q.idx")
+		cs = append(cs, lib.Case{Header: "M C19", Tags: []string{"heap-enum"}, Ops: hops})
+		cs = append(cs, lib.Case{Header: "M C19", Tags: []string{"ppq-enum"}, Ops: qops})
+	}
 	// zip tree: equal ranks everywhere in the model, replacement, prefix iteration with "" / missing / exact prefix
 	cs = append(cs, lib.Case{Header: "M C19", Tags: []string{"zip-fixed"}, Ops: []string{
 		"z.asc -", "z.get -", "z.put 62 01 0", "z.put 61 02 0", "z.put 63 03 0", "z.put - 04 0", "z.put 6162 05 0", "z.put 61 06 0",
 		"z.inv", "z.asc -", "z.asc 61", "z.asc 6162", "z.asc 6161", "z.asc 62", "z.asc ff", "z.get -", "z.get 61", "z.get 6163",
 		"z.put 00 07 3", "z.put ff 08 3", "z.put 6100 09 3", "z.asc 61", "z.asc 00", "z.asc -", "z.inv",
+	}})
+	// in-place update of a retained node and replacement from inside a running scan (seed C19-5: Put cleared the links of
+	// the node it replaced), on a tree built with tied ranks so that the node has two subtrees
+	cs = append(cs, lib.Case{Header: "M C19", Tags: []string{"zip-reput"}, Ops: []string{
+		"z.put 62 01 1", "z.put 61 02 0", "z.put 63 03 0", "z.put 6161 04 0", "z.put 6263 05 0", "z.inv",
+		"z.reput 62 11", "z.inv", "z.asc -", "z.reput 61 12", "z.reput 7a 13", "z.get 62", "z.get 61", "z.asc -",
+		"z.ascput - 21 fresh", "z.asc -", "z.inv", "z.ascput 61 22 same", "z.asc -", "z.ascput 62 23 same", "z.asc -", "z.inv",
+		"z.put 60 06 1", "z.put 64 07 1", "z.put 6262 08 1", "z.inv", "z.ascput - 24 same", "z.asc -", "z.inv",
 	}})
 	// heap / queue with all-equal priorities and Fix in both directions
 	cs = append(cs, lib.Case{Header: "M C19", Tags: []string{"heap-fixed"}, Ops: []string{
@@ -1044,7 +1225,7 @@ func propC19() *lib.Prop {
 			return hits >= 2
 		},
 		MObs: func(op string) bool {
-			for _, p := range []string{"z.inv", "h.dump", "h.idx", "h.fix", "q.idx", "ms.raw", "mg.gen first", "mg.gen second", "mg.gen bad"} {
+			for _, p := range []string{"z.inv", "h.dump", "h.idx", "h.fix", "q.idx", "q.dump", "ms.raw", "mg.gen first", "mg.gen second", "mg.gen bad"} {
 				if strings.HasPrefix(op, p) {
 					return true
 				}
